@@ -456,9 +456,6 @@ REJECT("C_Polyhedron", "construct_from_generators", "no_point") { Generator_Syst
   r.call("invalid_argument", [&] { C_Polyhedron p(gs); }); }
 REJECT("NNC_Polyhedron", "construct_from_generators", "no_point") { Generator_System gs; gs.insert(ray(Variable(0))); gs.insert(closure_point(Variable(1)));
   r.call("invalid_argument", [&] { NNC_Polyhedron p(gs); }); }
-REJECT("C_Polyhedron", "construct_from_NNC", "not_topologically_closed") { NNC_Polyhedron q(2); q.add_constraint(Variable(0) > 0); q.add_constraint(Variable(1) >= 0); if (coin()) (void) q.minimized_generators(); NNC_Polyhedron q0(q);
-  r.call("invalid_argument", [&] { C_Polyhedron p(q); });
-  r.unchanged("argument", q, q0); }
 REJECT("Generator", "point", "zero_divisor") { Linear_Expression e = Variable(0) + 2 * Variable(1); Linear_Expression e0(e);
   r.call("invalid_argument", [&] { (void) point(e, 0); });
   r.unchanged("expression", e, e0, [](const Linear_Expression& a, const Linear_Expression& b) { return a.is_equal_to(b); }, [](const Linear_Expression& a) { return str(a); }); }
